@@ -3,7 +3,6 @@ import asyncio
 import collections
 import functools
 import io
-import operator
 import pathlib
 import stat
 import sys
@@ -746,9 +745,10 @@ class MemoryPathIO(AbstractPathIO):
                     if node is None or node.type != "dir":
                         cls.iter = iter(())
                     else:
-                        names = map(operator.attrgetter("name"), node.content)
-                        paths = map(lambda name: path / name, names)
-                        cls.iter = iter(paths)
+                        # snapshot: entries may come and go while the listing
+                        # is consumed
+                        names = [child.name for child in node.content]
+                        cls.iter = iter([path / name for name in names])
                 try:
                     return next(cls.iter)
                 except StopIteration:
